@@ -26,48 +26,51 @@ Lemma fetch_at pre i post : xfetch (pre ++ i :: post) (xcsize pre) = Some i.
 Proof. replace (xcsize pre) with (xcsize pre + 0) by lia. rewrite fetch_skip by lia. reflexivity. Qed.
 
 Section Correct.
-Variables consts locals : list pvalue.
+Variable consts : list pvalue.
 
 Inductive mstar (code : list xinstr) : mstate -> mstate -> Prop :=
 | MRefl s : mstar code s s
-| MStep pc st s' : mstar code (xmstep consts locals code pc st) s' -> mstar code (XRunning pc st) s'.
+| MStep pc locals st s' : mstar code (xmstep consts code pc locals st) s' -> mstar code (XRunning pc locals st) s'.
 
 Lemma mstar_trans code s1 s2 s3 : mstar code s1 s2 -> mstar code s2 s3 -> mstar code s1 s3.
-Proof. induction 1 as [|pc st s' H IH]; intros H2; [exact H2|]. apply MStep. apply IH. exact H2. Qed.
+Proof. induction 1 as [|pc locals st s' H IH]; intros H2; [exact H2|]. apply MStep. apply IH. exact H2. Qed.
 
-Lemma mstar_one code pc st s : xmstep consts locals code pc st = s -> mstar code (XRunning pc st) s.
+Lemma mstar_one code pc locals st s : xmstep consts code pc locals st = s -> mstar code (XRunning pc locals st) s.
 Proof. intros <-. apply MStep. apply MRefl. Qed.
 
 (* what running the code of e means *)
-Definition runs (code : list xinstr) (p : Z) (e : cexpr) (st : list pvalue) : Prop :=
+Definition runs (locals : list pvalue) (code : list xinstr) (p : Z) (e : cexpr) (st : list pvalue) : Prop :=
   match xceval consts locals e with
-  | Ok v => mstar code (XRunning p st) (XRunning (p + xcsize (xcompile p e)) (v :: st))
-  | Err err => mstar code (XRunning p st) (XThrown err)
+  | Ok v => mstar code (XRunning p locals st) (XRunning (p + xcsize (xcompile p e)) locals (v :: st))
+  | Err err => mstar code (XRunning p locals st) (XThrown err)
   | _ => True                 (* a constant or local index out of range: excluded by the validator of C05 *)
   end.
 
-Lemma step_fetch code pre i post pc st :
+Lemma step_fetch code pre i post pc locals st :
   code = pre ++ i :: post -> pc = xcsize pre ->
-  xmstep consts locals code pc st =
+  xmstep consts code pc locals st =
   match i, st with
-  | XIConst c, _ => match nth_error consts c with Some v => XRunning (pc + 3) (v :: st) | None => XCrashed end
-  | XIGetLocal k, _ => match nth_error locals k with Some v => XRunning (pc + 2) (v :: st) | None => XCrashed end
-  | XIBinOp t, r :: l :: st' => match binop t l r with Ok v => XRunning (pc + 2) (v :: st') | Err e => XThrown e | _ => XCrashed end
-  | XIEqual, r :: l :: st' => XRunning (pc + 1) (vm_equal l r :: st')
-  | XINotEqual, r :: l :: st' => XRunning (pc + 1) (vm_not_equal l r :: st')
-  | XIUnary t, v :: st' => match unop t v with Ok w => XRunning (pc + 2) (w :: st') | Err e => XThrown e | _ => XCrashed end
-  | XIAndJump t, v :: st' => match is_falsy v with Some true => XRunning t st | Some false => XRunning (pc + 5) st' | None => XThrown (mkErr [] []) end
-  | XIOrJump t, v :: st' => match is_falsy v with Some true => XRunning (pc + 5) st' | Some false => XRunning t st | None => XThrown (mkErr [] []) end
-  | XIJumpFalsy t, v :: st' => match is_falsy v with Some true => XRunning t st' | Some false => XRunning (pc + 5) st' | None => XThrown (mkErr [] []) end
-  | XIJump t, _ => XRunning t st
+  | XIConst c, _ => match nth_error consts c with Some v => XRunning (pc + 3) locals (v :: st) | None => XCrashed end
+  | XIGetLocal k, _ => match nth_error locals k with Some v => XRunning (pc + 2) locals (v :: st) | None => XCrashed end
+  | XIBinOp t, r :: l :: st' => match binop t l r with Ok v => XRunning (pc + 2) locals (v :: st') | Err e => XThrown e | _ => XCrashed end
+  | XIEqual, r :: l :: st' => XRunning (pc + 1) locals (vm_equal l r :: st')
+  | XINotEqual, r :: l :: st' => XRunning (pc + 1) locals (vm_not_equal l r :: st')
+  | XIUnary t, v :: st' => match unop t v with Ok w => XRunning (pc + 2) locals (w :: st') | Err e => XThrown e | _ => XCrashed end
+  | XIAndJump t, v :: st' => match is_falsy v with Some true => XRunning t locals st | Some false => XRunning (pc + 5) locals st' | None => XThrown (mkErr [] []) end
+  | XIOrJump t, v :: st' => match is_falsy v with Some true => XRunning (pc + 5) locals st' | Some false => XRunning t locals st | None => XThrown (mkErr [] []) end
+  | XIJumpFalsy t, v :: st' => match is_falsy v with Some true => XRunning t locals st' | Some false => XRunning (pc + 5) locals st' | None => XThrown (mkErr [] []) end
+  | XIJump t, _ => XRunning t locals st
+  | XISetLocal k, v :: st' | XIDefineLocal k, v :: st' => match set_local locals k v with Some l' => XRunning (pc + 2) l' st' | None => XCrashed end
+  | XIPop, _ :: st' => XRunning (pc + 1) locals st'
+  | XIReturn, v :: _ => XReturned v
   | _, _ => XCrashed
   end.
 Proof. intros -> ->. unfold xmstep. rewrite fetch_at. reflexivity. Qed.
 
-Theorem compile_correct : forall e pre post st,
-  runs (pre ++ xcompile (xcsize pre) e ++ post) (xcsize pre) e st.
+Theorem compile_correct : forall locals e pre post st,
+  runs locals (pre ++ xcompile (xcsize pre) e ++ post) (xcsize pre) e st.
 Proof.
-  induction e as [c|i|t a IHa b IHb|a IHa b IHb|a IHa b IHb|t a IHa|a IHa b IHb|a IHa b IHb|c IHc a IHa b IHb];
+  intros locals. induction e as [c|i|t a IHa b IHb|a IHa b IHb|a IHa b IHb|t a IHa|a IHa b IHb|a IHa b IHb|c IHc a IHa b IHb];
     intros pre post st; unfold runs; cbn [xceval xcompile].
   - (* constant *)
     destruct (nth_error consts c) as [v|] eqn:E; [|exact I]. cbn [xcsize xisize].
